@@ -104,4 +104,11 @@ CHECKS = {
         "quick": {"shards": 48, "parallel": 16, "budget_s": 25, "min_evals": 3000, "min_counters": {"cuts.inside-event-of-multi-event-txn": 500, "cuts.inside-commit-record": 100}, "opts": {"parts": 4}},
         "thorough": {"shards": 256, "parallel": 16, "budget_s": 40, "min_evals": 50000, "opts": {"parts": 8}},
     },
+    "C06": {
+        "engine": "vp-store", "level": "fault_enumeration",
+        "rule": "histories with 1-3 rollovers on 128 KiB segments are shut down cleanly (background index flush awaited); for every sealed segment and each of index.eidx / partition.pidx / stream.sidx the file is replaced by: empty, write prefixes (every length 1..40 [1..512 thorough], structural boundaries +-1, every 64th [8th] byte, random lengths, len-1), complete; and all three files together empty or cut at 10/50/90 %; each state is reopened with the real code and the whole model is audited (every event by id, every partition and stream scan, latest queries). symptom classes: cannot-serve (open fails / a read fails / acknowledged events not found), open-panic, wrong-data. non-trivial = distinct (file kind, state class) combinations",
+        "assumptions": A_COMMON + ["a process crash keeps a prefix of the index file's bytes (the file is written by one write_all call after set_len(0) / at offset 0)", "the real-kill variant (SIGKILL while hook index_flush.before holds the flush) belongs to the thorough tier"],
+        "quick": {"shards": 16, "budget_s": 30, "min_evals": 2000, "min_counters": {"states.eidx.truncated": 300, "states.pidx.truncated": 300, "states.sidx.truncated": 300, "states..complete": 16}},
+        "thorough": {"shards": 64, "parallel": 16, "budget_s": 60, "min_evals": 15000},
+    },
 }
